@@ -200,48 +200,63 @@ def stil_case(res, case):
             res.violation(key + '/responses', case, f'responses()[{c.s_nodes[bad[0]].name}, pattern {bad[1]}] = {ref.CHARS[int(got_r[tuple(bad)])]} expected {ref.CHARS[int(exp_r[tuple(bad)])]}; markers {markers} chains {d.chains}\n{text}')
         if not np.array_equal(np.asarray(s.responses(c)), got_r): res.violation(key + '/responses-second-call', case, 'a second responses() call returns a different array')
         if case.get('loc'):
-            got = np.asarray(s.tests_loc(c))
-            snames = [n.name for n in c.s_nodes]
-            pos = {n: i for i, n in enumerate(snames)}
-            if got.shape != (len(snames), len(patterns)):
-                res.violation(key + '/loc-shape', case, f'tests_loc() shape {got.shape}\n{text}')
-            else:
-                for i, p in enumerate(patterns):
-                    has_launch = p.get('launch_pi') is not None      # a single-cycle pattern inside a launch-on-capture set holds the loaded state
-                    pulses = has_launch and 'P' in p['launch_pi'] and 'P' in p['capture_pi']
-                    # loaded state after inversion
-                    loaded = {n: int(exp_t[pos[n], i]) for ch in d.chains for n in ch}
-                    launch_pi = {n: CH[(p['launch_pi'] if has_launch else p['capture_pi'])[k]] for k, n in enumerate(pi_order)}
-                    cap_pi = {n: CH[p['capture_pi'][k]] for k, n in enumerate(pi_order)}
-                    # reference next state from the loaded state and the launch inputs (2-valued where known)
-                    assign = {}
-                    for n in c.s_nodes:
-                        if n.name in loaded: assign[n.index] = 1 if loaded[n.name] == O else 0
-                        elif n.name in launch_pi: assign[n.index] = 1 if launch_pi[n.name] == O else 0
-                        elif n.kind == 'LATCH': assign[n.index] = 0
-                    vals = ref.graph_eval(c, assign, lambda kind, pp: ref.gate2(kind, pp, 1), lambda v: 1 - v, 0)
-                    fully = all(v in (Z, O) for v in loaded.values()) and all(v in (Z, O, 4) for v in launch_pi.values())
-                    for n in loaded:
-                        node = c.cells[n]
-                        nxt = vals[node.ins[0].index] if pulses else (1 if loaded[n] == O else 0)
-                        exp = {(0, 0): 0, (1, 1): 3, (0, 1): 5, (1, 0): 6}[(1 if loaded[n] == O else 0, nxt)]
-                        g = int(got[pos[n], i])
-                        if fully and g != exp:
-                            res.violation(key + '/loc-ff', case, f'tests_loc()[{n}, pattern {i}] = {ref.CHARS[g]} expected {ref.CHARS[exp]} (loaded {ref.CHARS[loaded[n]]}, next state {nxt}, pulses {pulses}, launch call {has_launch})\n{text}')
-                    if not has_launch: res.count('loc_single_cycle_patterns')
-                    if pulses:
-                        for n in pi_order:
-                            a, b2 = launch_pi[n], cap_pi[n]
-                            if a in (Z, O, 4) and b2 in (Z, O, 4):
-                                ai, bf = (1 if a == O else 0), (1 if b2 == O else 0)
-                                exp = {(0, 0): 0, (1, 1): 3, (0, 1): 5, (1, 0): 6}[(ai, bf)]
-                                g = int(got[pos[n], i])
-                                if g != exp:
-                                    res.violation(key + '/loc-pi', case, f'tests_loc()[{n}, pattern {i}] = {ref.CHARS[g]} expected {ref.CHARS[exp]} (launch {p["launch_pi"]}, capture {p["capture_pi"]}, _pi order {pi_order})\n{text}')
-                    for n in po_order:
-                        if int(got[pos[n], i]) != U:
-                            res.violation(key + '/loc-po', case, f'tests_loc() assigns output {n}')
-                res.count('loc_cases')
+            def check_loc(got, fill, key):
+                # fill: None, or the value an init_filter puts on every unassigned position of the initialisation patterns
+                snames = [n.name for n in c.s_nodes]
+                pos = {n: i for i, n in enumerate(snames)}
+                if got.shape != (len(snames), len(patterns)):
+                    res.violation(key + '/loc-shape', case, f'tests_loc() shape {got.shape}\n{text}')
+                else:
+                    for i, p in enumerate(patterns):
+                        has_launch = p.get('launch_pi') is not None      # a single-cycle pattern inside a launch-on-capture set holds the loaded state
+                        pulses = has_launch and 'P' in p['launch_pi'] and 'P' in p['capture_pi']
+                        # loaded state after inversion
+                        loaded = {n: int(exp_t[pos[n], i]) for ch in d.chains for n in ch}
+                        if fill is not None: loaded = {n: (fill if v == U else v) for n, v in loaded.items()}
+                        launch_pi = {n: CH[(p['launch_pi'] if has_launch else p['capture_pi'])[k]] for k, n in enumerate(pi_order)}
+                        cap_pi = {n: CH[p['capture_pi'][k]] for k, n in enumerate(pi_order)}
+                        if fill is not None: launch_pi = {n: (fill if v == U else v) for n, v in launch_pi.items()}
+                        # reference next state from the loaded state and the launch inputs (2-valued where known)
+                        assign = {}
+                        for n in c.s_nodes:
+                            if n.name in loaded: assign[n.index] = 1 if loaded[n.name] == O else 0
+                            elif n.name in launch_pi: assign[n.index] = 1 if launch_pi[n.name] == O else 0
+                            elif n.kind == 'LATCH': assign[n.index] = 0
+                        vals = ref.graph_eval(c, assign, lambda kind, pp: ref.gate2(kind, pp, 1), lambda v: 1 - v, 0)
+                        fully = all(v in (Z, O) for v in loaded.values()) and all(v in (Z, O, 4) for v in launch_pi.values())
+                        for n in loaded:
+                            node = c.cells[n]
+                            nxt = vals[node.ins[0].index] if pulses else (1 if loaded[n] == O else 0)
+                            exp = {(0, 0): 0, (1, 1): 3, (0, 1): 5, (1, 0): 6}[(1 if loaded[n] == O else 0, nxt)]
+                            g = int(got[pos[n], i])
+                            if fully and g != exp:
+                                res.violation(key + '/loc-ff', case, f'tests_loc()[{n}, pattern {i}] = {ref.CHARS[g]} expected {ref.CHARS[exp]} (loaded {ref.CHARS[loaded[n]]}, next state {nxt}, pulses {pulses}, launch call {has_launch})\n{text}')
+                        if not has_launch: res.count('loc_single_cycle_patterns')
+                        if pulses:
+                            for n in pi_order:
+                                a, b2 = launch_pi[n], cap_pi[n]
+                                if a in (Z, O, 4) and b2 in (Z, O, 4):
+                                    ai, bf = (1 if a == O else 0), (1 if b2 == O else 0)
+                                    exp = {(0, 0): 0, (1, 1): 3, (0, 1): 5, (1, 0): 6}[(ai, bf)]
+                                    g = int(got[pos[n], i])
+                                    if g != exp:
+                                        res.violation(key + '/loc-pi', case, f'tests_loc()[{n}, pattern {i}] = {ref.CHARS[g]} expected {ref.CHARS[exp]} (launch {p["launch_pi"]}, capture {p["capture_pi"]}, _pi order {pi_order})\n{text}')
+                        for n in po_order:
+                            if int(got[pos[n], i]) != U:
+                                res.violation(key + '/loc-po', case, f'tests_loc() assigns output {n}')
+                    res.count('loc_cases')
+            check_loc(np.asarray(s.tests_loc(c)), None, key)
+            if any('N' in x for p in patterns for x in p['load']):
+                # the documented init_filter hook: filling the don't-care positions before simulation is the same as loading the filled state
+                for fill in (Z, O):
+                    porows = [i for i, n in enumerate(c.s_nodes) if n.name in po_order]
+                    def filt(a, fill=fill):         # fills inputs and flip-flops, leaves the output rows alone
+                        a = np.asarray(a)
+                        out = np.where(a == U, fill, a).astype(np.uint8)
+                        out[porows] = a[porows]
+                        return out
+                    check_loc(np.asarray(s.tests_loc(c, init_filter=filt)), fill, key + f'/init_filter{fill}')
+                    res.count('loc_init_filter_cases')
         if (exp_t == Z).any() and (exp_t == O).any(): res.sig((case['design'], text))
         res.count('cases')
         if any(any(m) for m in markers): res.count('cases_with_markers')
@@ -395,6 +410,7 @@ def replay(case):
 
 
 def finish(agg, tier):
+    if not agg.counters.get('loc_init_filter_cases'): raise common.HarnessError('vacuity guard: init_filter never exercised')
     if not agg.counters.get('loc_single_cycle_patterns'): raise common.HarnessError('vacuity guard: no single-cycle pattern in a launch-on-capture set')
     need = ['cases', 'cases_with_markers', 'tests_cases', 'loc_cases']
     missing = [k for k in need if not agg.counters.get(k)]
